@@ -253,9 +253,13 @@ inline void fill_env(Obs &o, const sdkres::Resource *res, const sdkscope::Instru
   o.scope = scope;
   if (scope)
   {
-    o.scope_name    = scope->GetName();
-    o.scope_version = scope->GetVersion();
-    o.scope_schema  = scope->GetSchemaURL();
+    // size()/data() are read here, in instrumented code (std::string's copy assignment lives in
+    // libstdc++.so): a scope object that is already gone is then reported as heap-use-after-free with
+    // allocation and free stacks, not as a wild read somewhere inside memmove
+    const std::string &sn = scope->GetName(), &sv = scope->GetVersion(), &su = scope->GetSchemaURL();
+    o.scope_name.assign(sn.data(), sn.size());
+    o.scope_version.assign(sv.data(), sv.size());
+    o.scope_schema.assign(su.data(), su.size());
   }
 }
 
